@@ -43,7 +43,7 @@ m = {
     ],
     "checks": checks,
     "not_applicable": na,
-    "notes": "See DESIGN.md. Fix commits in /repo: 6481cbb (C05 tie), 131a9be (C15 min-sized ints), b05165c (C18 unresolved ref in allOf/anyOf), 4d88e48 (C18 panic on empty default key), 50272a0 (C10 relative $ref inside a referenced file), e1ba213 (C10 loader cache keyed by raw reference text), 2547e66 (C18 null sub-schema crash), d4feaa6 (C08 fractional member of an integer enum truncated).",
+    "notes": "See DESIGN.md. Fix commits in /repo: 6481cbb (C05 tie), 131a9be (C15 min-sized ints), b05165c (C18 unresolved ref in allOf/anyOf), 4d88e48 (C18 panic on empty default key), 50272a0 (C10 relative $ref inside a referenced file), e1ba213 (C10 loader cache keyed by raw reference text), 2547e66 (C18 null sub-schema crash), d4feaa6 (C08 fractional member of an integer enum truncated), baf692f (C20 two spellings of one output path), 30c7e14 (C18 null definition behind a reference).",
 }
 json.dump(m, open(os.path.join(V, "MANIFEST.json"), "w"), indent=1)
 print("claimed:", sorted(claims))
